@@ -460,9 +460,9 @@ func body(w *runner.W) {
 	p5 := runner.NewSub(w, "P5-unusual-names", run)
 	if p5.Active() {
 		namesA := wh.Build{wh.F("include/xt_MARK.h", "A.=upper"), wh.F("include/xt_mark.h", "B/100"), wh.F("Include/xt_mark.h", "=third"),
-			wh.F("a", "=1"), wh.F("a.b", "=2"), wh.F("a b", "=3"), wh.F("ab", "C/65535"), wh.F("\u00e9t\u00e9/na\u00efve", "D"), wh.F("d/.keep", "")}
+			wh.F("a", "=1"), wh.F("a.b", "=2"), wh.F("a b", "=3"), wh.F("ab", "C/65535"), wh.F("\u00e9t\u00e9/na\u00efve", "D"), wh.F("d/.keep", ""), wh.F("saves../slot1", "=s1"), wh.F("..saves/x", "=s2"), wh.F("x..", "=s5"), wh.F("...", "=s6")}
 		namesB := wh.Build{wh.F("include/xt_MARK.h", "B/100"), wh.F("include/xt_mark.h", "A.=upper"), wh.F("Include/xt_MARK.h", "=third"),
-			wh.F("a", "=2"), wh.F("a.b", "=1"), wh.F("a b", "D"), wh.F("Ab", "C/65535"), wh.F("\u00e9t\u00e9/naive", "=3"), wh.F("d/.Keep", "")}
+			wh.F("a", "=2"), wh.F("a.b", "=1"), wh.F("a b", "D"), wh.F("Ab", "C/65535"), wh.F("\u00e9t\u00e9/naive", "=3"), wh.F("d/.Keep", ""), wh.F("saves../slot2", "=s1"), wh.F("..saves/x", "=s2!"), wh.F("x..", ""), wh.F("..../y", "=s6")}
 		for _, pr := range [][2]wh.Build{{namesA, namesB}, {namesB, namesA}, {namesA, namesA}} {
 			for _, p := range []string{"plain", "rediff-0", "rediff-2"} {
 				p5.Do(Case{Fam: "P5", Old: pr[0], New: pr[1], Patch: p})
